@@ -9,27 +9,26 @@ MANIFEST = {
     "text": ("Kernel-checked frame theorems over the model of every delegated-administrator instruction (interest-only, limits-only, "
              "e-mode configure/clone, emissions setup/update, metadata write, force-tokenless-complete, and the admin's configure / oracle / "
              "fixed-price on frozen banks): after a successful instruction every field outside the role's remit is unchanged, for all "
-             "arguments incl. all flag words (bit-mask lemmas over all integers, no enumeration); a frozen bank only lets deposit/borrow "
-             "limits through and stays frozen. The two emissions instructions write the whole flag word (findings F1, F2): refuted with "
-             "witnesses, proved for the words that agree with the bank's non-emissions bits. Forced deleverage: the transaction model "
-             "[start, withdraw*, repay*, end] gives post-health >= pre-health and both receivership flags cleared; the daily window "
-             "invariant (sum of whole dollars accepted since the last reset <= limit, resets >= 86400 s apart) is proved by induction "
-             "over any list of withdrawals for withdrawals below 2^32 dollars and limits below u32::MAX, and refuted beyond (u32 wrap / "
-             "saturation). Tied to the real code by level-C differential execution of every instruction through marginfi::entry in the "
+             "arguments incl. all flag words (bit-mask lemmas over all integers, no enumeration); the emissions admin changes only rate, "
+             "mint, remaining amount and bits 1|2 of the flag word, a word with any other bit is refused; a frozen bank only lets "
+             "deposit/borrow limits through and stays frozen under ANY sequence of instructions by any signers. Forced deleverage: the "
+             "transaction model [start, withdraw*, repay*, end] gives post-health >= pre-health and both receivership flags cleared; the "
+             "daily window invariant (sum of whole dollars accepted since the last reset <= limit, resets >= 86400 s apart) is proved by "
+             "induction over any list of withdrawals of any value, assuming only a configured (non-zero, u32) limit. The four defects found "
+             "in round 1 (F1, F2, u32 wrap and saturation of the window) are repaired in /repo (db069f3a, a59dfe5a, f9ac4dbc); their oracle "
+             "keys stay armed. Tied to the real code by level-C differential execution of every instruction through marginfi::entry in the "
              "sim runtime with a byte-exact, field-by-field diff of the bank (table tiling all 1856 bytes incl. paddings), group and "
              "metadata accounts and a whole-store diff of every other account, and by whole deleverage transactions."),
-    "design_ref": "DESIGN.md §7 C12, §8 F1 F2",
+    "design_ref": "DESIGN.md §7 C12 (§8 F1 F2 repaired)",
     "technique": "Coq proofs (frame equations via field erasers, Z.land/Z.lor/Z.ldiff bit lemmas by Z.bits_inj', induction over withdrawal lists) + model/implementation correspondence at level C (real handlers, byte-level field diff)",
 }
 THEOREMS = [
     "C12_curve_admin_frame", "C12_limit_admin_frame", "C12_emode_admin_frame", "C12_metadata_admin_frame",
-    "C12_risk_admin_frame", "C12_emissions_admin_frame_modulo_flags", "C12_emissions_admin_frame_restricted",
-    "C12_emissions_update_foreign_flags_refuted", "C12_emissions_setup_clears_flags_refuted",
-    "C12_configure_touches_only_its_three_flags", "C12_frozen", "C12_freeze_sticky_restricted", "C12_freeze_sticky_refuted",
+    "C12_risk_admin_frame", "C12_emissions_admin_frame", "C12_emissions_foreign_flags_rejected",
+    "C12_configure_touches_only_its_three_flags", "C12_frozen", "C12_freeze_sticky",
     "C12_unauthorized_signer_rejected",
     "C12_deleverage_health_not_worse", "C12_deleverage_bracket", "C12_deleverage_only_risk_admin",
-    "C12_daily_limit", "C12_daily_resets_spaced", "C12_daily_limit_wrap_refuted", "C12_daily_limit_saturation_refuted",
-    "C12_deleverage_tx_window", "C12_purge_guard",
+    "C12_daily_limit", "C12_daily_resets_spaced", "C12_deleverage_tx_window", "C12_purge_guard",
 ]
 RULE = ("privsim: 1-6 real admin instructions per case on two fixture banks (frozen in ~45% of the cases) by the entitled signer (88%) or "
         "another role; arguments: every Option combination, flag words = subsets of the 7 defined bits, single bits 0..63, the masks "
@@ -52,7 +51,8 @@ OBSERVATIONS = [
     "lending_pool_configure_bank_oracle and lending_pool_set_fixed_oracle_price panic on a frozen bank (transaction fails): the freeze is respected",
     "lending_pool_configure_bank_emode / lending_pool_clone_emode do not look at FREEZE_SETTINGS: e-mode settings of a frozen bank can change (e-mode is not in the property's list of frozen items)",
     "configure_deleverage_withdrawal_limit (group admin) moves last_daily_reset_timestamp to now without clearing withdrawn_today: it can only postpone a reset",
-    "CLOSE_ENABLED_FLAG is outside GROUP_FLAGS and EMISSION_FLAGS: only Bank::new sets it, only the two emissions instructions can clear (or, for update, set) it",
+    "CLOSE_ENABLED_FLAG is outside GROUP_FLAGS and EMISSION_FLAGS: only Bank::new sets it and (since db069f3a / a59dfe5a) no admin instruction can change it",
+    "update_withdrawn_equity with daily_limit = 0 (no limit) clamps withdrawn_today at u32::MAX; nothing is claimed for that case",
 ]
 
 ONE = 1 << 48
@@ -62,8 +62,7 @@ NOW = 1_700_000_000
 FUNDING = 1 << 62
 EMISSION_FLAGS, GROUP_FLAGS, FREEZE, TOKENLESS_ALLOWED, TOKENLESS_COMPLETE = 3, 108, 8, 32, 64
 DAY = 86400
-KNOWN_KEYS = ("emissions-admin-changes-foreign-flags", "setup-emissions-clears-flags",
-              "daily-limit-u32-wrap", "daily-limit-u32-saturation")
+KNOWN_KEYS = ()   # nothing is tolerated: the four round-1 findings are repaired in /repo, their oracle keys stay armed
 ROLE = {"admin": 0, "emode": 1, "curve": 2, "limit": 3, "emissions": 4, "metadata": 5, "risk": 6, "stranger": 7}
 ENTITLED = {"CFG": (0,), "IRO": (2,), "LIM": (3,), "EM": (1,), "CL": (0, 1), "ORA": (0,), "FIX": (0,), "ESET": (4,),
             "EUPD": (4,), "META": (5,), "FTC": (6,)}
@@ -230,7 +229,8 @@ def gen_priv_case(rng):
 
 
 def priv_finding_lines():
-    """fixed regression lines: F1 (update writes the whole word), F2 (setup replaces the word), frozen staked bank propagated"""
+    """fixed regression lines of the repaired findings F1 (update wrote the whole word) and F2 (setup replaced the word), and a
+    frozen staked bank that gets propagated"""
     c = K._std_compact(ONE, ONE)
     c["okey"] = 3
     h = K.cfg_toks(c) + [3, ONE]
